@@ -404,8 +404,11 @@ def bounded(tier):
           dpos = float(np.abs(pos0[g] - pos1[g1]).max())
           dmat = float(np.abs(mat0[g] - mat1[g1]).max())
           if typ == mujoco.mjtObj.mjOBJ_GEOM and nm.startswith('ft'):
-            # from-to capsule: the same axis and end points (the roll about the axis is arbitrary): compare centre, axis (third column) and half-length
-            dmat = float(np.abs(mat0[g].reshape(3, 3)[:, 2] - mat1[g1].reshape(3, 3)[:, 2]).max())
+            # from-to capsule: the same two world end points and radius (the roll about the axis is arbitrary).  The end points, not the axis direction, are
+            # compared: the direction of a short capsule amplifies the float32 rounding of the rewritten end points by 1/half-length (an axis tolerance
+            # raised a false alarm in the thorough tier on a 0.024 long capsule, see DESIGN 0.4)
+            a0, a1 = mat0[g].reshape(3, 3)[:, 2] * m0.geom_size[g][1], mat1[g1].reshape(3, 3)[:, 2] * m1.geom_size[g1][1]
+            dmat = max(float(np.abs((pos0[g] + a0) - (pos1[g1] + a1)).max()), float(np.abs((pos0[g] - a0) - (pos1[g1] - a1)).max()))
             dmat = max(dmat, float(np.abs(m0.geom_size[g] - m1.geom_size[g1]).max()))
           if dpos > 2e-5 or dmat > 2e-5:
             return Result(REFUTED, 'fuse_bodies moves %s by %g (pos) / %g (orientation)' % (nm, dpos, dmat), witness={'xml': x0, 'element': nm},
